@@ -22,7 +22,7 @@ const svDenom2 = "uatom"
 func VerifC08_NewBatchExchanged() {
 	verifExpect("issued", "not-issued", "no-rate")
 	e := newSvEnv()
-	one, w := big.NewInt(1), verifPow2(40)
+	one, w := big.NewInt(1), verifAmt(40)
 	rateSel := verifChoice("rate", 4)
 	rateTxt := []string{"0.5", "2", "0.000001", ""}[rateSel]
 	rateNum, rateDen := []int64{1, 2, 1, 0}[rateSel], []int64{2, 1, 1000000, 1}[rateSel]
@@ -59,8 +59,8 @@ func VerifC08_NewBatchExchanged() {
 	rc0.RepeatedTotal = -1
 	e.k.SetRequestContext(e.ctx, e.ctxID, rc0)
 	e.k.AddNewRequestBatch(e.ctx, e.ctxID, svHeight)
-	e.bank.fund(e.consumer, svDenom, verifIntIn("wallet", big.NewInt(0), verifPow2(42)))
-	e.bank.fund(e.consumer, svDenom2, verifIntIn("wallet2", big.NewInt(0), verifPow2(42)))
+	e.bank.fund(e.consumer, svDenom, verifIntIn("wallet", big.NewInt(0), verifAmt(42)))
+	e.bank.fund(e.consumer, svDenom2, verifIntIn("wallet2", big.NewInt(0), verifAmt(42)))
 	bal2 := func(a sdk.AccAddress) *big.Int { return e.bank.get(a, svDenom2).BigInt() }
 	c0, r0, c20, r20 := e.bal(e.consumer), e.reqEscrow(), bal2(e.consumer), bal2(vModuleAddr(types.RequestAccName))
 	panicked, what := verifCatch(func() { EndBlocker(e.ctx, e.k) })
